@@ -4,6 +4,7 @@ Decides (DESIGN.md §3 C14): note/descriptor struct layouts; the note walk (posi
 guard, progress); descriptor dispatch; property walk vs struct padding; section/segment front ends; stab walk.
 """
 import ast
+from sa.canon import U
 from sa.world import get_world
 from sa import elfconf, layout, expr, paths, streams, dispatch, literals, hrules, walks
 from sa.absint import FuncV, Unknown
@@ -120,7 +121,7 @@ def check_prop(ctx, w):
     ops = [o.t() for o in streams.func_ops(f.node, env) if o.kind == 'parse' and o.args[0] == 'Elf_Prop']
     ctx.ob('L-PAD', f.construct, 'property parsed at off', ops == [('parse', 'stream', 'Elf_Prop', 'off')], got=ops)
     whiles = [n for n in ast.walk(f.node) if isinstance(n, ast.While)]
-    inner = [n for n in whiles if ast.unparse(n.test).startswith('off <')]
+    inner = [n for n in whiles if U(n.test).startswith('off <')]
     envi = expr.FEnv(f.node, params=('elffile', 'offset', 'size'))
     ctx.ob('L-PAD', f.construct, 'property walk bounded by offset + n_descsz',
            len(inner) == 1 and expr.cond_str(inner[0].test, envi) == expr.spec_cond('off < offset + n_descsz'),
@@ -154,7 +155,7 @@ def check_walk(ctx, w):
             ctx.ob('I-ADV', f.construct, 'loop path ends by %s' % (res[1],), False, msg='note loop has an exit/absolute jump inside the body', got=res)
             continue
         n_paths += 1
-        cd = dict(conds)
+        cd = expr.Facts(conds)
         named = cd.get('T(n_namesz)')
         want = expr.spec_nf('%s + roundup(n_namesz, 2) + roundup(n_descsz, 2)' % H) if named else \
             expr.spec_nf('%s + roundup(n_descsz, 2)' % H)
@@ -174,7 +175,7 @@ def check_walk(ctx, w):
     end_def = env.defs.get('end')
     m = walks.guard_margin(loop.test, 'offset', 'end', expr.FEnv(f.node, params=('elffile', 'offset', 'size'), inline=False))
     if m is None:
-        raise AnalysisError('I-FIT', f.construct, 'loop guard is not of the form offset + A < end: %s' % ast.unparse(loop.test))
+        raise AnalysisError('I-FIT', f.construct, 'loop guard is not of the form offset + A < end: %s' % U(loop.test))
     rel, a = m
     a_s = expr.pstr(expr.nf(ast.parse('0', mode='eval').body)) if not a else expr.pstr(
         dict((tuple(x if x != 'nhdr_size' else H for x in mm), c) for mm, c in a.items()))
@@ -200,7 +201,7 @@ def check_walk(ctx, w):
     first = [o.t() for o in streams.ops_of(loop.body[0], env2)] + [o.t() for o in streams.ops_of(loop.body[3], env2)] if len(loop.body) > 3 else []
     ctx.ob('I-ADV', f.construct, 'header parsed at offset, stream re-positioned after it',
            first == [('parse', 'stream', 'Elf_Nhdr', 'offset'), ('seek', 'stream', 'offset', 'SEEK_SET')], got=first)
-    last = [ast.unparse(s) for s in loop.body[-3:]]
+    last = [U(s) for s in loop.body[-3:]]
     ctx.ob('I-ADV', f.construct, 'advance, n_size, yield close the iteration',
            last == ["offset += roundup(note['n_descsz'], 2)", "note['n_size'] = offset - note['n_offset']", 'yield note'], got=last)
 
@@ -216,7 +217,7 @@ def check_desc(ctx, w):
     for b in chains[0]:
         val = None
         for st in b.body:
-            if isinstance(st, ast.Assign) and ast.unparse(st.targets[0]) == "note['n_desc']":
+            if isinstance(st, ast.Assign) and U(st.targets[0]) == "note['n_desc']":
                 val = expr.nfs(st.value, env)
         if b.is_else:
             else_v = val
